@@ -240,7 +240,8 @@ def check_class(params):
     return out
 
 
-CASES = {"class": check_class, "member": check_member, "foliation": check_foliation}
+from mc.core import safe  # noqa: E402
+CASES = {k: safe("C06", f) for k, f in {"class": check_class, "member": check_member, "foliation": check_foliation}.items()}
 
 
 def _stage1(shard):
@@ -261,8 +262,8 @@ def _stage2(shard):
     part = Part()
     for recipe in shard:
         params = dict(recipe=recipe)
-        res = check_class(params)
-        st = params.pop("_stats")
+        res = CASES["class"](params)
+        st = params.pop("_stats", None) or dict(members=1, capped=False, connected=False, steps=0)
         part.count("states", st["members"])
         part.count("classes")
         part.count("normalize_runs", 2 * st["members"])
@@ -271,7 +272,7 @@ def _stage2(shard):
         if st["connected"]:
             part.count("connected_classes")
             part.note("nf_per_connected_class",
-                      "%d/%d" % (st["nf_count_left=False"], st.get("nf_count_left=True", 0)))
+                      "%d/%d" % (st.get("nf_count_left=False", 0), st.get("nf_count_left=True", 0)))
             if st["members"] > 1:
                 part.seen("nontrivial", repr(recipe))
         else:
